@@ -92,6 +92,12 @@ where
     pub fn unchecked_read_ref_at<'a>(&self, index: usize, reader: &'a Reader) -> Option<&'a T> {
         let offset = (index * Self::SIZE_OF_T) + HEADER_OFFSET;
         let bytes = reader.prefixed(offset);
+        #[cfg(feature = "verif")]
+        rawdb::verif::access(
+            rawdb::verif::AccessKind::Mmap,
+            bytes.as_ptr() as usize,
+            Self::SIZE_OF_T,
+        );
         T::ref_from_prefix(bytes).map(|(v, _)| v).ok()
     }
 }
